@@ -19,7 +19,7 @@ PROPERTY = "C19"
 
 META = {
     "bounds": {
-        "quick": "15 probes x every single history item (17) + 120 VERIF_SEED-drawn histories of 2-3 items; history values hv (16 bit) and probe value pv (16 bit) symbolic; each job in a fresh process, probe run before and after the history",
+        "quick": "15 probes x every single history item (23) + 120 VERIF_SEED-drawn histories of 2-3 items; history values hv (16 bit) and probe value pv (16 bit) symbolic; each job in a fresh process, probe run before and after the history; 8 probes with hand-derived expected output x every history item with the history run first (process never saw the probe)",
         "thorough": "15 probes x every history of <= 2 items + 300 drawn histories of 3",
     },
     "outside": ["histories longer than 3 assemblies", "state outside the Python process (files are virtual)"],
@@ -44,6 +44,9 @@ HISTORY = {
     "fail-in-loop": ("low", "*=0x8000\n.for i := 0, 3 {\n.scope s {\n.db nosuch\n}\n}\n", {}),
     "custom-map": ("low", MAPSRC + "*=0x001000\nm:\n.db hv\n.dl m\n", {}),
     "custom-map-fail": ("low", MAPSRC + "*=0x001000\n.db nosuch\n", {}),
+    # the built-in LoROM geometry re-declared by hand, spelling out writable=0 / writable=1, used at the probes' addresses
+    "custom-map-writable0": ("low", ".map identifier=1 bank_range=0x00, 0x6f addr_range=0x8000, 0xffff mask=0x8000 writable=0\n*=0x8000\nm:\n.db hv, 1, 2, 3, 4, 5, 6, 7, 8, 9\n.dl m\n*=0x018000\n.db 1\n", {}),
+    "custom-map-writable1": ("low", ".map identifier=1 bank_range=0x00, 0x6f addr_range=0x8000, 0xffff mask=0x8000 writable=1\n*=0x8000\nm:\n.db hv, 1, 2, 3, 4, 5, 6, 7, 8, 9\n.dl m\n*=0x018000\n.db 1\n", {}),
     "defs-macro": ("low", "*=0x8000\n.macro m(a) {\n.db a, 0x99\n}\n.macro w(c) {\n{{c}}\n}\nm(hv)\nw({\nnop\n})\n", {}),
     "defs-symbols": ("low", "*=0x9000\nsym = hv\nx := hv + 1\nstart:\nloop:\nl:\n.dw sym, x\n.scope ns {\nl:\n}\n", {}),
     "defs-table": ("low", "*=0x8000\n.table 'h.tbl'\n.text 'ab'\n", {"h.tbl": "7f=a\n7e=b\n"}),
@@ -88,6 +91,10 @@ EXPECT = {
     "own-include": [(0, [0xA9, "pv.lo", "pv.hi"] + _le3(0x8003))],
     "own-ips": [(0x100, [ord("x"), ord("y")]), (0, ["pv.lo"])],
     "own-table": [(0, [1, 2])],
+    "simple": [(0, [0xA9, "pv.lo", "pv.hi", 0xCA, 0xD0, 0xFD] + _le3(0x8000) + _le3(0x8003))],
+    "high": [(0x10000, ["pv.lo", "pv.hi"] + _le3(0xC10000))],
+    "own-map": [(0, _le3(0x108000))],
+    "scopes": [(0, ["pv.lo", 0, 1] + _le3(0x8003) + _le3(0x8000))],
 }
 
 
@@ -103,7 +110,7 @@ def jobs(tier, seed):
     # history first, in a process that has never seen the probe: the result is compared with the
     # probe's known output (catches state keyed by file name / source text that a first run would prime)
     for pn in EXPECT:
-        for h in ("same-file-names", "defs-table", "valid", "fail-node-error", "fail-inside-include", "fail-syntax-inside-include", "fail-inside-table", "fail-inside-ips"):
+        for h in items:
             out.append({"id": f"{pn}/history-first/{h}", "probe": pn, "history": [h], "order": "history-first"})
     rnd = random.Random(seed * 131 + 5)
     for k in range(120 if tier == "quick" else 300):
